@@ -13,8 +13,8 @@ LEAN_PROPS = "Dashu.Props.C14"
 LEAN_AUDIT = "Dashu.Audit.C14"
 # Tie A, typed translator: float/src/cmp.rs and rational/src/cmp.rs regenerated and proved equal to `Model/Cross/Ord.lean`
 USES_GEN = True
-GEN_PROPS = ["Dashu.Props.GenFloatCmp", "Dashu.Props.GenRatCmp"]
-GEN_AUDIT = ["Dashu.Audit.GenFloatCmp", "Dashu.Audit.GenRatCmp"]
+GEN_PROPS = ["Dashu.Props.GenFloatCmp", "Dashu.Props.GenRatCmp", "Dashu.Props.C14Link", "Dashu.Props.C14EstNoStd"]
+GEN_AUDIT = ["Dashu.Audit.GenFloatCmp", "Dashu.Audit.GenRatCmp", "Dashu.Audit.C14Ext"]
 
 M127 = (1 << 127) - 1
 UTYPES = [("u8", 8), ("u16", 16), ("u32", 32), ("u64", 64), ("u128", 128), ("usize", 64)]
@@ -550,11 +550,99 @@ def gen_overflow(rng, tier):
                     yield Case("numcmp", [x, f])
                     yield Case("numcmp", [f, x])
 
+
+ISZ_MAX = (1 << 63) - 1
+USZ_MAX = (1 << 64) - 1
+
+def _e1_values(rng, tier):
+    """ROUND4 addendum E1: the machine-integer values for an isize exponent / usize precision"""
+    ks = [0, 1, 2, 63, 64, 127, 129, 130] if tier == "quick" else list(range(0, 131))
+    pos = [0, 1, 63, 64, 65, 128, 1 << 31, (1 << 32) - 1, 1 << 32] + [(1 << 32) + k for k in rng.sample(range(1, 130), 3 if tier == "quick" else 20)]
+    pos += [1 << 62, (1 << 63) - 1 - 200] + [ISZ_MAX - k for k in ks]
+    return pos
+
+def gen_extreme(rng, tier):
+    """E1: every isize exponent / usize precision of an FBig operand at the machine extremes (0, 1, W-1, W, W+1, 2W, 2^31,
+    2^32-1, 2^32, 2^32+k, 2^62, isize::MAX-k, isize::MIN+k; precisions up to usize::MAX-k), through every op.  Pairs whose
+    exact comparison would have to materialise B^|e| (both exponents huge and the values within the estimator's slack) are NOT
+    generated: the real code hangs / runs out of memory there (reported, see reports/round5/C14.md)."""
+    pos = _e1_values(rng, tier)
+    exps = pos + [-e for e in pos if e] + [-(1 << 63), -(1 << 63) + 1]
+    small = ["n:5:U", "n:-5:I", "q:5/3:R", "q:-5/3:X", "p:f64:4004000000000000", "p:f32:c0a00000", "p:u8:7", "p:i64:-9"]
+    for B in (2, 10, 16):
+        O = 10 if B == 2 else 2
+        for e in exps:
+            s = rng.choice([1, 3, -3, 7, -123457])
+            x = "f:%d:%s:%d:0" % (B, hx(s), e)
+            yield Case("numhash", [x])
+            ys = rng.sample(small, 3 if tier == "quick" else len(small)) + ["f:%d:7:0:0" % B, "f:%d:-7:%d:0" % (O, e // 3)]
+            for y in ys:
+                yield Case("numcmp", [x, y]) if rng.random() < 0.5 else Case("numcmp", [y, x])
+            for y in ("n:5:U", "n:-5:I", "q:5/3:R", "f:%d:7:0:0" % B, "f:%d:7:%d:0" % (B, e), "f:%d:-7:%d:3" % (B, e)):
+                yield Case("abscmp", [x, y]) if rng.random() < 0.5 else Case("abscmp", [y, x])
+            for y in ("f:%d:7:0:0" % B, "f:%d:7:%d:0" % (B, e), "f:%d:7:%d:5" % (B, -e if e != -(1 << 63) else 5), "f:%d:-7:%d:0" % (B, e - 1 if e > -(1 << 63) else e + 1)):
+                yield Case("ordcmp", [x, y]) if rng.random() < 0.5 else Case("ordcmp", [y, x])
+            if abs(e) < (1 << 62):
+                yield Case("log2encl", [x])
+        # precisions (usize): the exponent+precision shortcut of repr_cmp_same_base casts the precision to isize
+        precs = [1, 63, 64, 65, 128, 1 << 31, (1 << 32) - 1, 1 << 32, (1 << 32) + 5, 1 << 62, ISZ_MAX - 1, ISZ_MAX, ISZ_MAX + 1, ISZ_MAX + 2]
+        precs += [USZ_MAX - k for k in ([0, 1, 2, 63, 64, 130] if tier == "quick" else range(0, 131))]
+        for p in precs:
+            for (s1, e1, s2, e2) in ((1, 0, 5, 0), (7, 3, 5, 0), (-3, -2, -3, -2), (9, 0, 1, 1), (1, 5, 99, 4)):
+                if ndigits(B, s1) > p or ndigits(B, s2) > p:
+                    continue
+                a = "f:%d:%s:%d:%d" % (B, hx(s1), e1, p)
+                b = "f:%d:%s:%d:%d" % (B, hx(s2), e2, rng.choice([p, 10, 0]))
+                for op in ("ordcmp", "abscmp", "numcmp", "numeq"):
+                    yield Case(op, [a, b]); yield Case(op, [b, a])
+                yield Case("hasheq", [a, b])
+
+def gen_all_magnitudes(rng, tier):
+    """E2: boundary classes for k of EVERY bit length: 2^b + d (d in -1,0,1) for every b <= 200 (quick: one rendering pair per
+    b and d; thorough: several), B^e + d for B in 10, 16, 3 and every e with B^e < 2^200, each against the exact power rendered in
+    another type (f32/f64 where exact, FBig of base 2/10/16, RBig, UBig/IBig, primitive integers where they fit)"""
+    reps_n = 1 if tier == "quick" else 6
+    def emit(v, w):
+        rv, rw = reps(Fraction(v), rng), reps(Fraction(w), rng)
+        for _ in range(reps_n):
+            a, b = rng.choice(rv), rng.choice(rw)
+            if rng.random() < 0.5:
+                a, b = b, a
+            yield from pair_cases(a, b, rng)
+    for b in range(0, 201):
+        for d in (-1, 0, 1):
+            for sg in ((1, -1) if tier == "thorough" else (rng.choice([1, -1]),)):
+                yield from emit(sg * (1 << b), sg * ((1 << b) + d))
+    for B in (10, 16, 3):
+        e = 0
+        while B ** e < (1 << 200):
+            for d in (-1, 0, 1):
+                sg = rng.choice([1, -1])
+                yield from emit(sg * B ** e, sg * (B ** e + d))
+                if e and B != 3:
+                    # the power as an FBig with an explicit exponent (un-normalised significand 1) against the neighbour as an integer
+                    x = fenc(B, sg, e, rng=rng)
+                    y = rng.choice(["n:%s:I" % hx(sg * (B ** e + d)), "q:%s/1:%s" % (hx(sg * (B ** e + d)), rng.choice("RX"))])
+                    yield Case("numcmp", [x, y]); yield Case("abscmp", [y, x]); yield Case("hasheq", [x, y])
+            e += 1
+    # negative powers: B^-e against 1/(B^e + d)
+    for B in (2, 10, 16):
+        for e in range(1, 60 if tier == "quick" else 160):
+            for d in (-1, 0, 1):
+                if B ** e + d <= 0:
+                    continue
+                x = fenc(B, 1, -e, rng=rng)
+                y = "q:1/%s:%s" % (hx(B ** e + d), rng.choice("RX"))
+                yield Case("numcmp", [x, y]) if rng.random() < 0.5 else Case("numcmp", [y, x])
+                yield Case("hasheq", [x, y])
+
 def generate(rng, tier):
     yield Case("implset", [])        # the impl set the tables were transcribed from is still the one in /repo
     yield from gen_special(rng, tier)
     yield from gen_encl(rng, tier)
     yield from gen_overflow(rng, tier)
+    yield from gen_extreme(rng, tier)
+    yield from gen_all_magnitudes(rng, tier)
     yield from gen_estimator_edge(rng, tier)
     yield from gen_equal_adjacent(rng, tier)
     yield from gen_far(rng, tier)
@@ -572,6 +660,43 @@ def nontrivial(c):
 
 def _ival(s):
     return -int(s[1:], 16) if s.startswith("-") else int(s, 16)
+
+
+# ----------------------------------------------------------------------------- known-finding input classes
+
+def _fp(a):
+    """(B, significand, exponent, precision, digits) of a finite non-zero `f:` argument after normalisation, else None"""
+    t = a.split(":")
+    if t[0] != "f":
+        return None
+    B, sg, e, p = int(t[1]), _ival(t[2]), int(t[3]), int(t[4])
+    if sg == 0:
+        return None
+    sg, e = normalize(B, sg, e)
+    return (B, sg, e, p, ndigits(B, sg))
+
+def kf_float_cmp_overflow(op, args, impl):
+    """float/src/cmp.rs repr_cmp_same_base cases 4/5 (`rhs_exp + rhs_prec as isize`, `rhs_exp + rhs_digits as isize` and mirror
+    images): two finite non-zero FBigs of one base (of equal sign for Ord) one of which has a precision >= 2^63 (`as isize` goes
+    negative) or exponent + max(precision, digits_ub) > isize::MAX (the isize sum overflows); same class as the C05 entry"""
+    if op not in ("ordcmp", "abscmp") or len(args) != 2:
+        return False
+    a, b = _fp(args[0]), _fp(args[1])
+    if a is None or b is None or a[0] != b[0]:
+        return False
+    if op == "ordcmp" and (a[1] < 0) != (b[1] < 0):
+        return False
+    if impl.startswith("panic") and not ("float/src/cmp.rs" in impl and "attempt_to_add_with_overflow" in impl):
+        return False
+    return any(x[3] >= 1 << 63 or x[2] + max(x[3], x[4] + 1) > ISZ_MAX for x in (a, b))
+
+def kf_numhash_min_exponent(op, args, impl):
+    """NumHash for Repr<B> with exponent == isize::MIN (finite non-zero): `-self.exponent` / `absm` negate overflow"""
+    if op not in ("numhash", "hasheq"):
+        return False
+    if not (impl.startswith("panic") and "attempt_to_negate_with_overflow" in impl):
+        return False
+    return any((_fp(a) or (0, 0, 0))[2] == -(1 << 63) for a in args)
 
 # ----------------------------------------------------------------------------- texts
 
@@ -593,13 +718,32 @@ REFINED = [
     "and equal the arithmetic description",
     "NumHash at the infinities (FBig +-inf vs f32/f64 +-inf feed 0)",
     "the driver's oracles (bit-length bounds with a 1/1024-precise rational enclosure of log2 B; never-filter) satisfy the enclosure hypothesis",
+    "integer/src/cmp.rs Ord for UBig / IBig, AbsOrd (4 impls), AbsEq (4 impls) and integer/src/third_party/num_order.rs NumOrd between UBig and IBig: "
+    "executed through C05's mirrored cmp_same_len / cmp_in_place / Ord for TypedReprRef / Ord for IBig on the canonical word representation "
+    "(Model/Cross/IntOrd.lean, what the driver runs for every integer x integer entry) and proved equal to the value-level tables for every word size "
+    "by importing C05's ubig_cmp / ibig_cmp (Props/C14Link: num_partial_cmp_mirrored, abs_cmp_mirrored, ord_cmp_mirrored, num_ord_exact_words ...); "
+    "every `compare l r` of an exact step is linked the same way (exact_step_is_mirrored_cmp)",
+    "the no_std (table) log2_bounds estimators of integers and rationals: base/src/math/log.rs no_std impls for u8 / u16 / u32..u128, "
+    "integer/src/log.rs log2_bounds_large, rational/src/repr.rs log2_bounds — mirrored over Rat with the binary32 operations (round-to-nearest, "
+    "next_down, next_up) as parameters (Model/Cross/EstNoStd.lean) and PROVED to satisfy the enclosure hypothesis for all inputs, word sizes >= 32, "
+    "under the IEEE facts F32.Ax, without any assumption about libm (Props/C14EstNoStd: nat_encloses, rat_encloses, large_encloses, ...); the instance with "
+    "exact arithmetic is the driver's third oracle (table_oracle_sound), run on every comparison",
 ]
 FRONTIER = [
-    "Ord for UBig/IBig (TypedReprRef::cmp, cmp_in_place), shl_digits / << / * / UBig::pow on big integers: used at their value (compare, *B^n); refined by C01/C05",
+    "shl_digits / << / * / UBig::pow on big integers inside the exact steps: used at their value (* B^n, * 2^n); owned by C01/C09 (mirrored and proved "
+    "there); the comparisons that follow them are no longer at their value (linked to C05, see REFINED)",
     "num-modular u128::mulm inside invm (a*b mod m through udouble) used at its value; machine u128 sums of FixedMersenne are Nat sums (proved overflow-free on residues)",
-    "the real f32 estimators (UBig/IBig/Repr<B>/rational log2_bounds, digits_ub): a PARAMETER of the theorems; the enclosure hypothesis is checked "
-    "on the real code per generated input by the harness op log2encl (certified integer interval arithmetic: log2 enclosed to 2^-137 by repeated squaring "
-    "with directed rounding, f32 bounds decoded exactly; no libm, no floats), not proved: libm's log2f inside the estimators cannot be specified",
+    "the std-path f32 estimators (libm log2f inside u8..u128 log2_bounds) and Repr<B>::log2_bounds / digits_ub of the float crate in both paths: a PARAMETER of the "
+    "theorems; the enclosure hypothesis is checked on the real code per generated input by the harness op log2encl (certified integer interval arithmetic), "
+    "not proved. Reason: log2f cannot be specified; the float estimator computes its bounds in f64 and casts to f32 before the outward step, which needs a "
+    "grid-level model of binary32/binary64 double rounding (the relative-error facts of F32.Ax, enough for the integer and rational estimators, do not carry it)",
+    "machine-integer overflow of the isize/usize exponent and precision arithmetic (cmp.rs `rhs_exp + rhs_prec as isize`, num_order.rs `-self.exponent`): the model is "
+    "over unbounded Int/Nat, the overflow behaviour is not mirrored; the extremes are driven by the generator (gen_extreme) and the two input classes where the code "
+    "fails are recorded findings (precision >= 2^63 or exponent + max(precision, digits) > isize::MAX in Ord/AbsOrd of same-base FBigs; NumHash at exponent isize::MIN)",
+    "NumOrd between two FBigs whose exponents are both huge and whose values lie within the estimator's slack: the code's exact step materialises B^|e| (hang / "
+    "OutOfMemory from |e| ~ 2^31); no executable model can run these either, they are not generated; the theorems (unbounded Int) still give the answer",
+    "Tie A covers float/src/cmp.rs and rational/src/cmp.rs (GenFloatCmp, GenRatCmp); the three third_party/num_order.rs files are hand-mirrored and tied by "
+    "differential execution plus the `implset` digest of their impl headers (a typed-translator target for the macro bodies was not added this round)",
 ]
 RULE = ("values drawn from families {small integers, boundaries of every primitive integer type, f32/f64 range boundaries (2^24, 2^53, max, least "
         "subnormal, 2^1024, bit lengths 1077/1078), multiples and neighbours of M = 2^127-1, integers of 1..40 words in 11 bit patterns, dyadic, "
@@ -610,7 +754,10 @@ RULE = ("values drawn from families {small integers, boundaries of every primiti
         "60..2^20 and k around the f32 resolution 16..26 (inside / just outside the filter's slack); exponents up to 10^15 and 2^62 far apart (must "
         "not be materialised) and 10^(10^3..10^6) against the integer of the same size +-1; same-base FBig pairs around the exponent+precision and "
         "exponent+digits shortcut boundaries; denominators that are multiples of M (reduced RBig vs non-reduced Relaxed); exponents beyond 2^24 "
-        "where `exponent as f32` rounds; |exponent|*bit_len(B) around isize::MAX; iN::MIN magnitudes. Ops: numcmp (num_partial_cmp + num_cmp, "
+        "where `exponent as f32` rounds; |exponent|*bit_len(B) around isize::MAX; iN::MIN magnitudes; E1: FBig exponents at every machine extreme (0, 1, 63..65, 128, "
+        "2^31, 2^32-1, 2^32, 2^32+k, 2^62, isize::MAX-k for k <= 130, the negatives, isize::MIN, isize::MIN+1) and precisions (.., 2^62, isize::MAX-1..+2, usize::MAX-k) "
+        "in bases 2/10/16 through every op; E2: 2^b + d (d in -1,0,1) for EVERY b <= 200 and B^e + d for B in 10, 16, 3 and every e below 2^200, and B^-e against "
+        "1/(B^e + d), each against the exact power rendered in another type. Ops: numcmp (num_partial_cmp + num_cmp, "
         "num_eq/ne/lt/le/gt/ge must agree; FBig also through Repr<B> and with a different rounding-mode type), numeq, abscmp, abseq, ordcmp, numhash "
         "(recorded Hasher::write calls), hasheq, log2encl (enclosure hypothesis on the real estimator, decided exactly), fdecode, implset. Non-trivial := the two arguments are of "
         "different kinds; distinct := distinct (op,args) lines.")
@@ -621,13 +768,19 @@ EXPLANATION = ("Theorems (all inputs, no size bounds; for EVERY estimator satisf
                "impl feeds hashQ(value) in Z/(2^127-1) (prime, proved by Lucas-Lehmer), hence equal values of any two types feed the same i128 "
                "(num_hash_value, full: non-reduced Relaxed included). The model mirrors /repo after the seven C14 fix commits; the pre-fix code is kept "
                "as a separate model only for labelled as-is statements (prefix_*) of the repaired defects. The driver runs the model with a bit-length "
-               "oracle and with a never-filtering oracle (both proved sound) and against the specification on every case.")
+               "oracle, a never-filtering oracle and the no_std table estimator with exact arithmetic as a third oracle (all three proved sound) and against the "
+               "specification on every case; big-integer comparisons run through C05's mirrored word-level cmp (Props/C14Link). The enclosure hypothesis itself "
+               "is proved for the no_std integer and rational estimators under IEEE-754 facts only (Props/C14EstNoStd).")
 ASSUMPTIONS = [
     "the real f32 estimators satisfy the enclosure hypothesis on the compared inputs (checked per generated input by `log2encl`, incl. exponents beyond 2^24 where it failed before fix 378134e)",
     "big-integer Ord, shifts, products and powers compute their mathematical values (C01/C05/C09)",
     "Hasher::write_i128 forwards 16 native-endian bytes to write (observed by the recording hasher); u128::mulm computes a*b mod m",
     "FBig operands respect their constructors' invariants: significand 0 only with exponent 0 / +-1, digits <= precision (+1) when the precision is limited",
     "i128 arithmetic of the bit-length estimates does not overflow (|exponent| < 2^63, bit_len(B) <= 64)",
+    "isize/usize arithmetic on exponents and precisions does not overflow: precision < 2^63, exponent + max(precision, digits_ub) <= isize::MAX, exponent > isize::MIN "
+    "(outside: the two recorded findings); exact steps fit in memory",
+    "Props/C14EstNoStd: the IEEE-754 binary32 facts F32.Ax (next_down/next_up outward, round-to-nearest returns a neighbour, relative error <= 2^-24 in the normal "
+    "range, k*2^-j exact for k < 2^24); word size >= 32",
 ]
 LEVEL_TEXT = ("Machine-checked Lean 4 theorems, for all inputs and for every estimate oracle satisfying the enclosure hypothesis, that the mirrored "
               "NumOrd / AbsOrd code of all implemented type pairs returns the order of the exact rationals (NaN incomparable) and that NumHash of "
@@ -637,7 +790,8 @@ LEVEL_TEXT = ("Machine-checked Lean 4 theorems, for all inputs and for every est
               "estimator for every generated operand, and the impl set of the anchored files is re-derived from source.")
 LEVEL_NOTE = ("Trusted: Lean kernel; axioms propext/Classical.choice/Quot.sound (Mathlib reals are used only to STATE log2 enclosure); the "
               "correspondence harness and generators (sampling) for the tie model<->code; the f32 estimators enter only through the enclosure "
-              "hypothesis, which is tested per operand with certified integer interval arithmetic, not proved; big-integer primitives and num-modular are used at their specifications (frontier list).")
+              "hypothesis, which is tested per operand with certified integer interval arithmetic, not proved for the std path and the float estimator (proved for the no_std integer/rational estimators under F32.Ax); big-integer shifts/products/powers "
+              "and num-modular mulm are used at their specifications (frontier list); big-integer Ord/AbsOrd/AbsEq are C05's mirrored code (linked by theorem).")
 THEOREMS = ["Dashu.Props.C14." + n for n in (
     "spec_lt spec_eq spec_gt float_value_rat abs_value_rat enclosure_is_log2 "
     "filter_sound coarse_sound noFilter_sound float_cmp_ubig float_cmp_ibig float_cmp_float "
@@ -647,7 +801,12 @@ THEOREMS = ["Dashu.Props.C14." + n for n in (
     "ord_exact ratio_abs_cmp_ratio ratio_abs_cmp_float mersenne127_prime num_hash_value num_hash_inf "
     "mersenne_reduce_single mersenne_reduce_double mersenne_mul mersenne_pow mersenne_inv num_hash_mirrored "
     "num_hash_value_mirrored hash_is_function_of_value rat_hash_eq_body prefix_num_ord_zero prefix_num_ord_inf prefix_abs_ord_ubig "
-    "prefix_abs_ord_ibig prefix_num_hash_corner prefix_num_hash_value_weak ").split()]
+    "prefix_abs_ord_ibig prefix_num_hash_corner prefix_num_hash_value_weak ").split()] + ["Dashu.Props.C14Link." + n for n in (
+    "ubig_ord_mirrored ibig_ord_mirrored ibig_ord_any_repr ubig_ord_any_repr int_abs_ord_mirrored int_abs_eq_mirrored "
+    "ubig_cmp_ibig_mirrored ibig_cmp_ubig_mirrored num_partial_cmp_mirrored num_eq_mirrored abs_cmp_mirrored ord_cmp_mirrored "
+    "num_ord_exact_words abs_ord_exact_words ord_exact_words exact_step_is_mirrored_cmp").split()] + ["Dashu.Props.C14EstNoStd." + n for n in (
+    "u8_encloses prim_encloses large_encloses nat_encloses rat_encloses oracle_sound_of_float_part exact_arithmetic_meets_ax "
+    "table_oracle_sound num_ord_exact_table_path").split()]
 TECHNIQUE = "Lean 4 theorems over an executable mirrored model with estimate-oracle parameters + differential correspondence model vs real code"
 JOBS = 14
 READY = True
